@@ -840,7 +840,11 @@ class KafkaClient(object):
             yield self.fetch_api_versions()
         if self._api_versions == 0:
             return 0
-        return int(self._api_versions[key].max_version)
+        # The broker lists the APIs it supports; find the entry for this one.
+        for api_version in self._api_versions:
+            if api_version.api_key == key:
+                return int(api_version.max_version)
+        return 0
 
     def _handle_api_version_update(self, resp: ApiVersionResponse):
         """
